@@ -7,11 +7,12 @@ ids = [p['id'] for p in props]
 na_path = os.path.join(V, 'checks', 'not_applicable.json')
 na_reasons = json.load(open(na_path)) if os.path.exists(na_path) else {}
 checks, na = [], []
+claimed = set(open(os.path.join(V, 'checks', 'claimed.txt')).read().split())
 for pid in ids:
     cp = os.path.join(V, 'checks', pid + '.json')
     ready = os.path.exists(cp) and os.path.exists(os.path.join(V, 'lean', 'BfeVerif', pid, 'Props.lean')) \
         and os.path.exists(os.path.join(V, 'harness', 'cmd', pid.lower(), 'main.go'))
-    if not ready or json.load(open(cp)).get('disabled'):
+    if not ready or pid not in claimed:
         na.append({'property_id': pid, 'reason': na_reasons.get(pid, 'model, theorems and correspondence harness for this property are not built yet (see DESIGN.md section 1 for the planned model); not claimed until they run green on the unchanged tree')})
         continue
     c = json.load(open(cp))
